@@ -39,6 +39,9 @@ pub enum Op {
     /// an account that is not the margin engine (owner, stranger, a trader, the insurance fund's owner ...) sends a swap or a
     /// funding settlement straight to the vAMM
     Intruder { v: u8, who: u8, kind: u8, knob: u16 },
+    /// whale order sized (by bisection on the vAMM's own band query, on a what-if copy) so that closing a holder's whole position
+    /// afterwards lands the price on the edge of the per-block band; the holder's ClosePosition follows as the next step
+    EdgeClose { v: u8, t: u8, knob: u16 },
 }
 
 #[derive(Clone, Debug, Serialize, Deserialize, PartialEq, Eq, Hash)]
@@ -73,6 +76,7 @@ pub struct Weights {
     pub rewire: u32,
     pub edge: u32,
     pub intruder: u32,
+    pub edge_close: u32,
 }
 
 impl Weights {
@@ -101,6 +105,7 @@ impl Weights {
             rewire: 0,
             edge: 0,
             intruder: 0,
+            edge_close: 0,
         }
     }
 }
@@ -162,9 +167,9 @@ pub fn vamm_cfg_strategy(d: u128, p: &CfgProfile) -> BoxedStrategy<VammCfg> {
         vec![0]
     };
     let fluct_tab: Vec<u128> = if p.fluct_always {
-        vec![d / 20, d / 100, d / 8, d * 3 / 10, d / 50, d / 1000]
+        vec![d / 20, d / 100, d / 8, d * 3 / 10, d / 50, d / 1000, d, d * 9 / 16]
     } else if p.fluct {
-        vec![0, 0, 0, 0, 0, d / 20, d / 100, d / 8, d * 3 / 10]
+        vec![0, 0, 0, 0, 0, d / 20, d / 100, d / 8, d * 3 / 10, d]
     } else {
         vec![0]
     };
@@ -306,6 +311,7 @@ pub fn op_strategy(w: &Weights) -> BoxedStrategy<Op> {
         (w.rewire, 20),
         (w.edge, 21),
         (w.intruder, 22),
+        (w.edge_close, 23),
     ]
     .into_iter()
     .filter(|(wt, _)| *wt > 0)
@@ -345,7 +351,8 @@ pub fn op_strategy(w: &Weights) -> BoxedStrategy<Op> {
                 19 => Op::Alias { kind: s1 % 6, v, amt: k1 },
                 20 => Op::Rewire { v, what: s1 },
                 21 => Op::PushEdge { v, up: b, knob: k1 },
-                _ => Op::Intruder { v, who: s2, kind: s1, knob: k1 },
+                22 => Op::Intruder { v, who: s2, kind: s1, knob: k1 },
+                _ => Op::EdgeClose { v, t, knob: k1 },
             }
         })
         .boxed()
